@@ -152,6 +152,27 @@ pub fn shape_module(feat: &[String]) -> Vec<u8> {
         wasm_encoder::CustomSection { name: "producers".into(), data: (&[0u8][..]).into() }.append_to(&mut bytes);
         wasm_encoder::CustomSection { name: "zz.first".into(), data: (&[9u8][..]).into() }.append_to(&mut bytes);
     }
+    if has("names_front") {
+        // custom sections may sit anywhere: move the name section in front of every other section (the parser then
+        // reads the names before it knows how many functions are imported)
+        use wasm_encoder::Section;
+        let mut front = bytes[..8].to_vec();
+        let mut rest = vec![];
+        for p in wasmparser::Parser::new(0).parse_all(&bytes) {
+            let p = p.expect("shape parses");
+            let is_name = matches!(&p, wasmparser::Payload::CustomSection(c) if c.name() == "name");
+            if let Some((id, range)) = p.as_section() {
+                let raw = wasm_encoder::RawSection { id, data: &bytes[range] };
+                if is_name {
+                    raw.append_to(&mut front);
+                } else {
+                    raw.append_to(&mut rest);
+                }
+            }
+        }
+        front.extend_from_slice(&rest);
+        bytes = front;
+    }
     bytes
 }
 
